@@ -18,7 +18,9 @@ import (
 	"net"
 	"os"
 	"path/filepath"
+	"regexp"
 	"strconv"
+	"sync"
 	"sync/atomic"
 	"testing"
 	"time"
@@ -26,6 +28,8 @@ import (
 	"github.com/EdgeCast/vflow/ipfix"
 	netflow9 "github.com/EdgeCast/vflow/netflow/v9"
 )
+
+var sdColTime = regexp.MustCompile(`"ColTime":\d+`)
 
 type sdResult struct {
 	Proto        string  `json:"proto"`
@@ -36,6 +40,13 @@ type sdResult struct {
 	RunReturned  bool    `json:"run_returned"`
 	CacheLoads   bool    `json:"cache_loads"`
 	Note         string  `json:"note,omitempty"`
+	// backlog mode: the queue was full, the workers then caught up (no shutdown in between)
+	Sent      int    `json:"sent,omitempty"`
+	UDPAfter  uint64 `json:"udp_after,omitempty"`
+	DecAfter  uint64 `json:"dec_after,omitempty"`
+	Published int    `json:"published,omitempty"`
+	MaxSame   int    `json:"max_same_payload,omitempty"` // how often the most frequent payload was published
+	Drained   bool   `json:"drained,omitempty"`
 }
 
 func TestVerifShutdownFullQueue(t *testing.T) {
@@ -53,7 +64,7 @@ func TestVerifShutdownFullQueue(t *testing.T) {
 		IPFIXTplCacheFile: filepath.Join(dir, "ipfix.tpl"), IPFIXRPCEnabled: false,
 		NetflowV9Enabled: proto == "netflow9", NetflowV9Port: port, NetflowV9Addr: "127.0.0.1", NetflowV9Workers: 2, NetflowV9UDPSize: 1500,
 		NetflowV9TplCacheFile: filepath.Join(dir, "nf9.tpl"),
-		NetflowV5Enabled: proto == "netflow5", NetflowV5Port: port, NetflowV5Addr: "127.0.0.1", NetflowV5Workers: 2, NetflowV5UDPSize: 1500,
+		NetflowV5Enabled:      proto == "netflow5", NetflowV5Port: port, NetflowV5Addr: "127.0.0.1", NetflowV5Workers: 2, NetflowV5UDPSize: 1500,
 		SFlowEnabled: proto == "sflow", SFlowPort: port, SFlowAddr: "127.0.0.1", SFlowWorkers: 2, SFlowUDPSize: 1500}
 	if os.Getenv("VERIF_MIRROR") == "1" {
 		// mirroring enabled (real dispatcher and raw-socket mirror worker towards a loopback port nobody listens on)
@@ -73,26 +84,68 @@ func TestVerifShutdownFullQueue(t *testing.T) {
 	}
 	var p proto_
 	var qlen func() int
-	var udpCount func() uint64
+	var udpCount, decCount func() uint64
 	var cacheFile string
+	var mq chan []byte
 	switch proto {
 	case "ipfix":
 		i := NewIPFIX()
-		p, qlen, cacheFile = i, func() int { return len(ipfixUDPCh) }, opts.IPFIXTplCacheFile
+		p, qlen, cacheFile, mq = i, func() int { return len(ipfixUDPCh) }, opts.IPFIXTplCacheFile, ipfixMQCh
 		udpCount = func() uint64 { return atomic.LoadUint64(&i.stats.UDPCount) }
+		decCount = func() uint64 { return atomic.LoadUint64(&i.stats.DecodedCount) }
 	case "netflow9":
 		i := NewNetflowV9()
-		p, qlen, cacheFile = i, func() int { return len(netflowV9UDPCh) }, opts.NetflowV9TplCacheFile
+		p, qlen, cacheFile, mq = i, func() int { return len(netflowV9UDPCh) }, opts.NetflowV9TplCacheFile, netflowV9MQCh
 		udpCount = func() uint64 { return atomic.LoadUint64(&i.stats.UDPCount) }
+		decCount = func() uint64 { return atomic.LoadUint64(&i.stats.DecodedCount) }
 	case "netflow5":
 		i := NewNetflowV5()
-		p, qlen = i, func() int { return len(netflowV5UDPCh) }
+		p, qlen, mq = i, func() int { return len(netflowV5UDPCh) }, netflowV5MQCh
 		udpCount = func() uint64 { return atomic.LoadUint64(&i.stats.UDPCount) }
+		decCount = func() uint64 { return atomic.LoadUint64(&i.stats.DecodedCount) }
 	default:
 		s := NewSFlow()
-		p, qlen = s, func() int { return len(sFlowUDPCh) }
+		p, qlen, mq = s, func() int { return len(sFlowUDPCh) }, sFlowMQCh
 		udpCount = func() uint64 { return atomic.LoadUint64(&s.stats.UDPCount) }
+		decCount = func() uint64 { return atomic.LoadUint64(&s.stats.DecodedCount) }
 	}
+	backlog := os.Getenv("VERIF_MODE") == "backlog"
+	var dgrams struct {
+		Setup [][]int `json:"setup"`
+		Data  [][]int `json:"data"`
+	}
+	if backlog {
+		b, err := ioutil.ReadFile(os.Getenv("VERIF_DGRAMS"))
+		if err != nil || json.Unmarshal(b, &dgrams) != nil {
+			t.Fatalf("driver: datagram file: %v", err)
+		}
+	}
+	toBytes := func(a []int) []byte {
+		o := make([]byte, len(a))
+		for i, x := range a {
+			o[i] = byte(x)
+		}
+		return o
+	}
+	// what is published is collected all along (nothing else reads the queue: the producer is disabled)
+	same := map[string]int{}
+	var pubMu sync.Mutex
+	published := 0
+	pubStop := make(chan struct{})
+	go func() {
+		for {
+			select {
+			case m := <-mq:
+				pubMu.Lock()
+				published++
+				same[string(sdColTime.ReplaceAll(m, []byte(`"ColTime":0`)))]++
+				pubMu.Unlock()
+			case <-pubStop:
+				return
+			}
+		}
+	}()
+	defer close(pubStop)
 	runDone := make(chan struct{})
 	go func() { p.run(); close(runDone) }()
 	time.Sleep(300 * time.Millisecond)
@@ -104,16 +157,89 @@ func TestVerifShutdownFullQueue(t *testing.T) {
 	}
 	sent := 0
 	deadline := time.Now().Add(20 * time.Second)
-	for udpCount() < 1003 && time.Now().Before(deadline) {
-		for k := 0; k < 50; k++ {
-			c.Write([]byte(fmt.Sprintf("not a flow datagram %06d", sent)))
+	if backlog {
+		// templates first, processed while the workers still run freely
+		open := int32(1)
+		hold := verifHook
+		verifHook = func(ev, p string, body, payload []byte) {
+			if atomic.LoadInt32(&open) == 0 {
+				hold(ev, p, body, payload)
+			}
+		}
+		for _, d := range dgrams.Setup {
+			c.Write(toBytes(d))
+			sent++
+			for udpCount() < uint64(sent) && time.Now().Before(deadline) {
+				time.Sleep(time.Millisecond)
+			}
+		}
+		for qlen() > 0 && time.Now().Before(deadline) {
+			time.Sleep(time.Millisecond)
+		}
+		time.Sleep(50 * time.Millisecond)
+		atomic.StoreInt32(&open, 0) // from now on the workers stall at their next datagram
+		// decodable, distinct datagrams, one at a time against the receive counter: 1000 queued + one per stalled
+		// worker + one the receive loop cannot queue
+		next := 0
+		for udpCount() < uint64(len(dgrams.Setup))+1003 && next < len(dgrams.Data) && time.Now().Before(deadline) {
+			c.Write(toBytes(dgrams.Data[next]))
+			next++
+			sent++
+			for udpCount() < uint64(sent) && qlen() < 1000 && time.Now().Before(deadline) {
+				time.Sleep(50 * time.Microsecond)
+			}
+			if qlen() >= 1000 {
+				time.Sleep(2 * time.Millisecond)
+			}
+		}
+		for k := 0; k < 3 && next < len(dgrams.Data); k++ { // a few more wait in the socket
+			c.Write(toBytes(dgrams.Data[next]))
+			next++
 			sent++
 		}
-		time.Sleep(5 * time.Millisecond)
+	} else {
+		for udpCount() < 1003 && time.Now().Before(deadline) {
+			for k := 0; k < 50; k++ {
+				c.Write([]byte(fmt.Sprintf("not a flow datagram %06d", sent)))
+				sent++
+			}
+			time.Sleep(5 * time.Millisecond)
+		}
 	}
 	c.Close()
 	res.UDPCount = udpCount()
 	res.QueueFull = qlen() == 1000 && res.UDPCount >= 1003
+	if backlog {
+		res.QueueFull = qlen() == 1000
+		res.Sent = sent
+		time.Sleep(1200 * time.Millisecond) // the receive loop sits in its wait for room at least once
+		close(gate)                         // the workers catch up
+		stable, last := 0, uint64(0)
+		t1 := time.Now()
+		for stable < 10 && time.Since(t1) < 30*time.Second {
+			cur := udpCount() + decCount() + uint64(qlen())<<40
+			pubMu.Lock()
+			cur += uint64(published) << 20
+			pubMu.Unlock()
+			if cur == last && qlen() == 0 {
+				stable++
+			} else {
+				stable = 0
+			}
+			last = cur
+			time.Sleep(50 * time.Millisecond)
+		}
+		res.Drained = stable >= 10
+		res.UDPAfter, res.DecAfter = udpCount(), decCount()
+		pubMu.Lock()
+		res.Published = published
+		for _, n := range same {
+			if n > res.MaxSame {
+				res.MaxSame = n
+			}
+		}
+		pubMu.Unlock()
+	}
 	if !res.QueueFull {
 		res.Note = fmt.Sprintf("could not fill the queue: len %d, UDPCount %d", qlen(), res.UDPCount)
 	}
@@ -123,9 +249,14 @@ func TestVerifShutdownFullQueue(t *testing.T) {
 	if hold < 1500 {
 		hold = 1500
 	}
+	if backlog {
+		hold = 0
+	}
 	time.Sleep(time.Duration(hold) * time.Millisecond) // well past any grace period, the loop still blocked
 	t0 := time.Now()
-	close(gate) // the workers come back and drain the queue
+	if !backlog {
+		close(gate) // the workers come back and drain the queue
+	}
 	select {
 	case <-sdDone:
 		res.ShutdownDone = true
